@@ -72,6 +72,20 @@ def crafted():
     out.append((0x20002, 1, a, a.index(b"SSND") + 16))
     w = wav_smpl_cue(2, extensible=True)
     out.append((0x130002, 2, w, w.index(b"data") + 8))
+    # more chunks than the reader's chunk table holds before it has to grow (20, 31, 47 ...)
+    w = wav_smpl_cue(1)
+    extra = b"".join(_ck(b"xtr%c" % (65 + i % 26), bytes([i]) * (i % 7), big=False) for i in range(60))
+    body = w[12:]
+    k = body.rindex(b"data")
+    w2 = b"WAVE" + body[:k] + extra + body[k:]
+    w2 = b"RIFF" + struct.pack("<I", len(w2)) + w2
+    out.append((0x10002, 1, w2, w2.rindex(b"data") + 8))
+    a = aiff_inst_mark(1)
+    extra = b"".join(_ck(b"xtr%c" % (65 + i % 26), bytes([i]) * (i % 7)) for i in range(60))
+    k = a.index(b"SSND")
+    a2 = a[8:k] + extra + a[k:]
+    a2 = b"FORM" + struct.pack(">I", len(a2)) + a2
+    out.append((0x20002, 1, a2, a2.index(b"SSND") + 16))
     # more cue points / markers than the fixed-size SF_CUES a caller usually passes (100)
     w = wav_smpl_cue(1, ncue=120)
     out.append((0x10002, 1, w, 120))
